@@ -301,11 +301,61 @@ Proof.
   apply N.ltb_lt in A. apply N.eqb_eq in B. split; assumption.
 Qed.
 
+(* ---- the wider write domain (link names also on fifos and devices) ---- *)
+Definition link_ok_w (m : N) (ln : bytes) : bool := is_nil ln || negb (mode_is_dir m).
+Definition link_ok_w_hi (h : N) (ln : bytes) : bool := is_nil ln || negb (has_bits h (ModeDir / 512)).
+Lemma link_ok_w_hi_eq : forall m ln, link_ok_w m ln = link_ok_w_hi (m / 512) ln.
+Proof. intros. unfold link_ok_w, link_ok_w_hi. rewrite mode_is_dir_hi. reflexivity. Qed.
+
+Lemma wf_high_parts_narrow_wide :
+  forallb (fun h => negb (link_ok_hi h [0]) || link_ok_w_hi h [0]) wf_high_parts = true.
+Proof. vm_compute. reflexivity. Qed.
+
+Lemma link_ok_narrow_wide : forall m ln,
+  mode_okb m = true -> link_ok m ln = true -> link_ok_w m ln = true.
+Proof.
+  intros m ln Hm Hl. destruct ln as [| c r]; [reflexivity |].
+  unfold mode_okb in Hm. apply existsb_exists in Hm. destruct Hm as [x [Hin Hx]].
+  apply N.eqb_eq in Hx. rewrite link_ok_hi_eq, Hx, link_ok_hi_ln in Hl. rewrite link_ok_w_hi_eq, Hx.
+  pose proof wf_high_parts_narrow_wide as F. rewrite forallb_forall in F. specialize (F x Hin).
+  rewrite Hl in F. exact F.
+Qed.
+
+Lemma wf_entry_w_parts : forall e, wf_entry_wb e = true ->
+  (mode_okb (st_mode (fst e)) = true /\ link_ok_w (st_mode (fst e)) (st_linkname (fst e)) = true
+   /\ ends_with_sep (st_path (fst e)) = false) /\
+  (carries_size (fst e) = true -> st_size (fst e) < two63 /\ st_size (fst e) = blen (snd e)) /\
+  tar_encodable (hdr_of_stat (fst e)) = true.
+Proof.
+  intros e H. unfold wf_entry_wb in H.
+  apply andb_true_iff in H. destruct H as [H H3]. apply andb_true_iff in H. destruct H as [H1 H2].
+  unfold wf_stat_wb in H1. apply andb_true_iff in H1. destruct H1 as [H1 Hp].
+  apply andb_true_iff in H1. destruct H1 as [Hm Hl]. apply negb_true_iff in Hp.
+  split; [repeat split; assumption |]. split; [| exact H3].
+  intro C. rewrite C in H2. apply andb_true_iff in H2. destruct H2 as [A B].
+  apply N.ltb_lt in A. apply N.eqb_eq in B. split; assumption.
+Qed.
+
+Lemma wf_entry_narrow_wide : forall e, wf_entry_b e = true -> wf_entry_wb e = true.
+Proof.
+  intros e H. destruct (wf_entry_parts e H) as [Hst _]. destruct (wf_stat_parts _ Hst) as [Hm [Hl Hp]].
+  unfold wf_entry_b in H. unfold wf_entry_wb.
+  apply andb_true_iff in H. destruct H as [H H3]. apply andb_true_iff in H. destruct H as [_ H2].
+  rewrite H2, H3, !andb_true_r. unfold wf_stat_wb. rewrite Hm, Hp. cbn [andb negb]. rewrite andb_true_r.
+  exact (link_ok_narrow_wide _ _ Hm Hl).
+Qed.
+
+Lemma wf_listing_narrow_wide : forall l, wf_listing_b l = true -> wf_listing_wb l = true.
+Proof.
+  intros l H. unfold wf_listing_b in H. unfold wf_listing_wb. rewrite forallb_forall in *.
+  intros e He. apply wf_entry_narrow_wide. apply H. exact He.
+Qed.
+
 (* declared size = bytes handed to the archive writer, for every member *)
-Lemma payload_size_entry : forall e, wf_entry_b e = true ->
+Lemma payload_size_entry_w : forall e, wf_entry_wb e = true ->
   h_size (fst (member_of_entry e)) = blen (snd (member_of_entry e)).
 Proof.
-  intros e H. destruct (wf_entry_parts e H) as [_ [Hsz _]].
+  intros e H. destruct (wf_entry_w_parts e H) as [_ [Hsz _]].
   unfold member_of_entry. cbn [fst snd].
   rewrite has_payload_spec.
   unfold hdr_of_stat at 1. cbn [h_size]. unfold hdr_size.
@@ -318,18 +368,21 @@ Proof.
   - unfold carries_size in C. rewrite C. reflexivity.
 Qed.
 
+Lemma payload_size_entry : forall e, wf_entry_b e = true ->
+  h_size (fst (member_of_entry e)) = blen (snd (member_of_entry e)).
+Proof. intros e H. apply payload_size_entry_w. apply wf_entry_narrow_wide. exact H. Qed.
+
 (* ------------------------------------------------------------------ *)
 (* the sequential writer on a well-formed listing *)
-Lemma write_loop_wf : forall l idx acc,
-  wf_listing_b l = true -> write_loop l false idx acc = TarOk (rev acc ++ tar_of_listing l).
+Lemma write_loop_wf_w : forall l idx acc,
+  wf_listing_wb l = true -> write_loop l false idx acc = TarOk (rev acc ++ tar_of_listing l).
 Proof.
   induction l as [| e r IH]; intros idx acc H.
   - cbn. rewrite app_nil_r. reflexivity.
-  - cbn [wf_listing_b forallb] in H. apply andb_true_iff in H. destruct H as [He Hr].
-    fold (wf_listing_b r) in Hr.
-    destruct (wf_entry_parts e He) as [Hst [_ Henc]].
-    destruct (wf_stat_parts _ Hst) as [Hm _].
-    pose proof (payload_size_entry e He) as Hps.
+  - cbn [wf_listing_wb forallb] in H. apply andb_true_iff in H. destruct H as [He Hr].
+    fold (wf_listing_wb r) in Hr.
+    destruct (wf_entry_w_parts e He) as [[Hm _] [_ Henc]].
+    pose proof (payload_size_entry_w e He) as Hps.
     cbn [write_loop tar_of_listing map].
     rewrite (fih_ok_of_wf _ Hm), Henc. cbn [negb].
     unfold member_of_entry in *. cbn [fst snd] in Hps.
@@ -339,8 +392,10 @@ Proof.
     + rewrite IH by exact Hr. cbn [rev]. rewrite <- app_assoc. reflexivity.
 Qed.
 
+Lemma write_listing_wf_w : forall l, wf_listing_wb l = true -> write_listing l = TarOk (tar_of_listing l).
+Proof. intros l H. unfold write_listing. rewrite (write_loop_wf_w l O [] H). reflexivity. Qed.
 Lemma write_listing_wf : forall l, wf_listing_b l = true -> write_listing l = TarOk (tar_of_listing l).
-Proof. intros l H. unfold write_listing. rewrite (write_loop_wf l O [] H). reflexivity. Qed.
+Proof. intros l H. apply write_listing_wf_w. apply wf_listing_narrow_wide. exact H. Qed.
 
 (* member i is the header of entry i; its name is the path, plus '/' exactly for directories *)
 Definition dir_slash_name (s : stat) : bytes :=
@@ -348,16 +403,18 @@ Definition dir_slash_name (s : stat) : bytes :=
 Definition member_of (e : entry) (m : member) : Prop :=
   m = member_of_entry e /\ h_name (fst m) = dir_slash_name (fst e).
 
-Lemma members_forall2 : forall l, wf_listing_b l = true -> Forall2 member_of l (tar_of_listing l).
+Lemma members_forall2_w : forall l, wf_listing_wb l = true -> Forall2 member_of l (tar_of_listing l).
 Proof.
   induction l as [| e r IH]; intro H; cbn [tar_of_listing map]; constructor.
-  - cbn [wf_listing_b forallb] in H. apply andb_true_iff in H. destruct H as [He _].
-    destruct (wf_entry_parts e He) as [Hst _]. destruct (wf_stat_parts _ Hst) as [_ [_ Hp]].
+  - cbn [wf_listing_wb forallb] in H. apply andb_true_iff in H. destruct H as [He _].
+    destruct (wf_entry_w_parts e He) as [[_ [_ Hp]] _].
     split; [reflexivity |].
     unfold member_of_entry, hdr_of_stat, dir_slash_name, tar_name. cbn [fst h_name].
     rewrite Hp. cbn [negb]. rewrite andb_true_r. reflexivity.
-  - apply IH. cbn [wf_listing_b forallb] in H. apply andb_true_iff in H. apply H.
+  - apply IH. cbn [wf_listing_wb forallb] in H. apply andb_true_iff in H. apply H.
 Qed.
+Lemma members_forall2 : forall l, wf_listing_b l = true -> Forall2 member_of l (tar_of_listing l).
+Proof. intros l H. apply members_forall2_w. apply wf_listing_narrow_wide. exact H. Qed.
 
 (* ------------------------------------------------------------------ *)
 (* the hard-link reset is the identity on listings whose links are closed *)
@@ -515,6 +572,20 @@ Proof.
   - unfold tar_of_listing. apply Forall_forall. intros m Hin. apply in_map_iff in Hin.
     destruct Hin as [e [Hm He]]. subst m. apply payload_size_entry.
     unfold wf_listing_b in H. rewrite forallb_forall in H. apply H. exact He.
+Qed.
+
+(* ... and on the wider write domain (link names also on fifos and devices) *)
+Lemma members_are_listing_wide_proof : forall l, wf_listing_wb (reset_entries l) = true ->
+  write_tar_listing l = TarOk (tar_members_listing l)
+  /\ Forall2 member_of (reset_entries l) (tar_members_listing l)
+  /\ Forall (fun m : member => h_size (fst m) = blen (snd m)) (tar_members_listing l).
+Proof.
+  intros l H. unfold write_tar_listing, tar_members_listing. split; [| split].
+  - apply write_listing_wf_w. exact H.
+  - apply members_forall2_w. exact H.
+  - unfold tar_of_listing. apply Forall_forall. intros m Hin. apply in_map_iff in Hin.
+    destruct Hin as [e [Hm He]]. subst m. apply payload_size_entry_w.
+    unfold wf_listing_wb in H. rewrite forallb_forall in H. apply H. exact He.
 Qed.
 
 (* ------------------------------------------------------------------ *)
